@@ -278,7 +278,7 @@ class Block(object):
         self.id = j['id']
         self.elems = j['e']
         self.succ = j['s']
-        self.succ_all = j['su']
+        self.succ_all = [u if u is not None else r for r, u in zip(j['s'], j['su'])]
         self.term = j.get('term')
         self.termk = j.get('termk')
         self.tc = j.get('tc')
@@ -524,13 +524,27 @@ class CFG(object):
         res = []
         for (a, ix) in deps:
             blk = self.blocks[a]
-            if blk.tc is None or blk.tc < 0:
-                continue
-            cn = self.fn.nodes.get(blk.tc)
+            cn = self.effective_cond(blk)
             if cn is None:
                 continue
             res.append((cn, ix == 0, blk))
         return res
+
+    def effective_cond(self, blk):
+        """the condition decided at the end of blk.  With setAllAlwaysAdd a short-circuit operator
+        `a && b` used as an if-condition gets its own join block whose terminator is the `if` and
+        whose condition is the whole `a && b`; the block evaluating `a` ends in terminator `&&` with
+        condition `a`.  In both cases the recorded condition is the right one."""
+        if blk.tc is None or blk.tc < 0:
+            return None
+        cn = self.fn.nodes.get(blk.tc)
+        if cn is None:
+            return None
+        return cn.strip()
+
+    def branch_blocks(self):
+        """blocks that end in a two-way branch with a condition"""
+        return [b for b in self.blocks.values() if len(b.succ) == 2 and b.tc is not None and b.tc >= 0]
 
 
 class Function(object):
